@@ -420,13 +420,17 @@ class MetaSpec_key_signature(MetaSpec):
 class MetaSpec_sequencer_specific(MetaSpec):
     type_byte = 0x7f
     attributes = ['data']
-    defaults = [[]]
+    defaults = [()]
 
     def decode(self, message, data):
         message.data = tuple(data)
 
     def encode(self, message):
         return list(message.data)
+
+    def check(self, name, value):
+        for byte in value:
+            check_int(byte, 0, 255)
 
 
 def add_meta_spec(klass):
@@ -525,6 +529,10 @@ class MetaMessage(BaseMessage):
             if name == 'time':
                 check_time(value)
             else:
+                if name == 'data':
+                    # Stored like sysex and unknown meta data: an immutable
+                    # tuple (this also makes the message hashable).
+                    value = tuple(value)
                 spec.check(name, value)
             self_vars[name] = value
 
